@@ -18,9 +18,9 @@ CLAIMS = {
             'source: family C01v (is_valid/validate agreement), C01c (no foreign exception) and C01n (non-empty result) for the modules whose '
             'verification conditions the tactic closes (listed; the others are covered by the search only). Non-string arguments are outside the model '
             '(search only).', '§4 C01, §8', ''),
-    'C04': ('Lean 4 theorems on the regenerated model (per module: compact x = compact y -> format x = format y); differential run; failing-input search',
-            'Proof of the presentation-independence half of C04 for the modules listed in obligations/C04.json (all strings, all format options); '
-            'that format(x) is accepted with the same identity is covered by the search only (stated as partial).', '§4 C04, §8', ''),
+    'C04': ('Lean 4 theorems on the regenerated model, per module: compact x = compact y -> format x = format y (family C04), and validate x = ok v -> format v succeeds and validate (format v) = ok v (family C04v: the formatted number is accepted with the same identity; via compact (format v) = v, the C03 and the C02 theorem); differential run; failing-input search',
+            'Proof for the modules listed in obligations/C04.json (all strings, default format options) on definitions regenerated from the current source; for the other modules, and for non-default format options, '
+            'the second half (format(x) is accepted with the same identity) is covered by the search only (listed as uncovered). 15 call sites where the statement is false of the code are known findings.', '§4 C04, §8', ''),
     'C13': ('Lean 4 theorems on a hand-written state-machine model (sequential histories, arbitrary thread interleavings, heap non-interference of _find) and on the generated state-passing twins of the three memoising lookups (warm = cold for every cache content satisfying the invariant, hence for every history; Props/C13w), runtime exploration of the real library (histories, container mutation, 2-16 threads, fresh-process references)',
             'Proof for the model Spec.State (every finite history, every schedule and thread count) and for the regenerated `_get_cc_module__warm` functions (tie: tools/corr/warm.py with arbitrary cache contents); the tie of Spec.State to the implementation is the runtime exploration '
             'tools/search/c13.py, which compares every call with a fresh process. CPython import-lock behaviour during concurrent first imports cannot be '
